@@ -212,6 +212,7 @@ package gochannel
 //@   ensures result == nil && g.config.BlockPublishUntilSubscriberAck ==> (forall i int :: 0 <= i && i < len(messages) ==> closed(sret(SM, 0, old(ncalls(SM)) + i)) || closed(g.closing)) [blocking-publish-returns-only-after-every-dispatch-completed-or-the-pubsub-is-closing]
 //@   assert @unlock:g.persistedMessagesLock: ncalls(SM) == old(ncalls(SM)) && has(g.persistedMessages, topic) && len(g.persistedMessages[topic]) == atlock(len(g.persistedMessages[topic])) + len(messages) && (forall i int :: 0 <= i && i < atlock(len(g.persistedMessages[topic])) ==> g.persistedMessages[topic][i] == atlock(g.persistedMessages[topic][i])) && (forall i int :: 0 <= i && i < len(messages) ==> g.persistedMessages[topic][atlock(len(g.persistedMessages[topic])) + i] == messagesToPublish[i]) [persisted-before-any-dispatch-appended-in-order-earlier-entries-kept]
 //@   assert @call:(*GoChannel).sendMessage: held(unboxptr(subLock, "sync.Mutex")) [dispatch-happens-under-the-topic-lock]
+//@   assert @call:(*GoChannel).waitForAckFromSubscribers: heldshared(g.subscribersLock) [a-publish-waiting-for-acks-shares-the-subscribers-lock-so-that-a-subscriber-can-publish-before-it-acks]
 //@   modifies ghost(smhas), ghost(smval)
 //@   inv loop 1: forall j int :: 0 <= j && j <= rangeindex ==> copyof(messagesToPublish[j], messages[j]) [copies-so-far]
 //@   inv loop 1: len(messagesToPublish) == len(messages) && ncalls(SM) == old(ncalls(SM)) [nothing-dispatched-yet]
